@@ -1,4 +1,5 @@
 import BoltonsVerif.C02.Extra
+import BoltonsVerif.C02.HRefine
 /-
 C02 — property theorems for the LRI / LRU model (statements, short derivations from
 `Proofs` / `Refine` / `Facts`, non-vacuity examples).
@@ -434,6 +435,167 @@ theorem copy_behaves_like_source (c : Cache K V) (ops : List (Op K V)) :
   have := (SameCore.copied c).run ops
   exact ⟨this.2, this.1.d, this.1.ring⟩
 
+/-! ### update / |= with unusual arguments, == with a non-mapping -/
+
+/-- `c.update(E)` / `c |= E` where iterating `E` yields the pairs `l` and then raises (an exhausted
+    generator that throws, a malformed element): the exception propagates, the pairs received so
+    far have been assigned exactly as `update(l)` assigns them — so the cache still obeys max_size
+    and the eviction order (`reachable_inv`, `refines_ref` cover this call like any other) -/
+theorem update_failing_keeps_prefix (c : Cache K V) (l : List (K × V)) :
+    (step c (.updateFail l)).2 = .raised ∧ (step c (.updateFail l)).1 = (step c (.update (.pairs l) [])).1 :=
+  ⟨rfl, rfl⟩
+
+/-- `c == x` is False and `c != x` is True for an `x` that is not a mapping; nothing changes -/
+theorem eq_other_is_false (c : Cache K V) :
+    step c .eqOther = (c, .bool false) ∧ step c .neOther = (c, .bool true) := ⟨rfl, rfl⟩
+
+/-- `c.update(c, **kw)` / `c |= c` do nothing (`if E is self: return`) -/
+theorem update_from_self (w : List (Cache K V)) (i : Nat) (kw : List (K × V)) :
+    wstep w (.updc i i kw) = (w, .none) := by
+  simp only [wstep]
+  cases w[i]? <;> simp
+
+/-- `a.update(b, **kw)` / `a |= b` with another cache `b` (dict and ring of `b` in step, e.g. `b`
+    reachable): `a` is updated with the items of `b` in `b`'s iteration order, then with `kw`,
+    exactly as by `a.update(dict(b), **kw)`; `b` keeps its contents, every `E[k]` the update
+    evaluates is a found lookup on `b` (one hit per item, no miss, on_miss never called); an LRI `b`
+    keeps its eviction order, an LRU `b` ends up with its dict order as eviction order -/
+theorem update_from_cache (w : List (Cache K V)) (i j : Nat) (kw : List (K × V)) {a b : Cache K V}
+    (ha : w[i]? = some a) (hb : w[j]? = some b) (hne : i ≠ j) (hi : Inv b) :
+    ∃ b', wstep w (.updc i j kw) = ((w.set i (a.update (.pairs b.d) kw)).set j b', .none) ∧
+      b'.d = b.d ∧ b'.hit = b.hit + b.d.length ∧ b'.miss = b.miss ∧ b'.soft = b.soft ∧
+      b'.omLog = b.omLog ∧ b'.ring = (if b.lru then b.d else b.ring) ∧ Inv b' := by
+  have h := updFrom_hits (c := a) hi b.d (fun p hp => lookup_of_mem hi.sync.nd hp)
+  obtain ⟨h1, h2, h3, h4, h5, h6, h7, h8, h9⟩ := h
+  refine ⟨b.readAll (keys b.d), ?_, h2, h3, h4, h5, h6, ?_, h7⟩
+  · simp only [wstep, ha, hb, hne, if_false, h1, Cache.update]
+  · cases hl : b.lru with
+    | false => simp [h8 hl]
+    | true =>
+      rw [h9 hl, foldl_toFront _ _ hi.sync.nd, eraseKeys_all _ _ hi.sync.nr]
+      · simp
+      · intro k hk
+        rw [← lookup_isSome_iff] at hk ⊢
+        rwa [hi.sync.agree]
+
+/-! ### the linked list itself: links, PREV / NEXT pointers, the rotating anchor (`LL.lean`)
+
+`HCache` transliterates `_init_ll`, `_get_link_and_move_to_front_of_ll`, `_set_key_and_add_to_front_of_ll`,
+`_set_key_and_evict_last_in_ll`, `_remove_from_ll` and the traversal in `copy()` statement by statement
+on a memory of links; `reach` above is the ring model.  The theorems below show that the pointer code
+implements the ring operations, so everything proved above holds for the pointer-level cache. -/
+
+/-- the pointer-level caches after history `ops` -/
+abbrev hreach (lru : Bool) (max : Nat) (om : Option (K → OmRes V)) (ops : List (WOp K V)) : List (HCache K V) :=
+  hwrun [HCache.initP lru max om] ops
+
+/-- after every history the pointer-level caches simulate the ring-level caches (same dict, same
+    counters, the links reachable from the anchor are the ring, oldest first) and every call returned
+    the same result -/
+theorem linked_list_refines_ring (lru : Bool) (max : Nat) (hmax : 1 ≤ max) (om : Option (K → OmRes V))
+    (ops : List (WOp K V)) :
+    HWSim (hreach lru max om ops) (reach lru max om ops) ∧
+    (hwouts [HCache.initP lru max om] ops).map Out.shape = (wouts [Cache.initP lru max om] ops).map Out.shape :=
+  (HWSim.single (HSim.initP lru max om hmax)).run ops
+
+/-- every pointer-level cache corresponds to the ring-level cache with the same number -/
+theorem linked_list_cache_of_mem (lru : Bool) (max : Nat) (hmax : 1 ≤ max) (om : Option (K → OmRes V))
+    (ops : List (WOp K V)) (h : HCache K V) (hh : h ∈ hreach lru max om ops) :
+    ∃ c ∈ reach lru max om ops, HSim h c := by
+  have hw := (linked_list_refines_ring lru max hmax om ops).1
+  obtain ⟨i, hi⟩ := List.mem_iff_getElem?.1 hh
+  rcases hw.get i with ⟨h1, _⟩ | ⟨a, c, h1, h2, hs⟩
+  · rw [h1] at hi; cases hi
+  · rw [h1] at hi; cases hi
+    exact ⟨c, List.mem_of_getElem? h2, hs⟩
+
+/-- capacity, contents and counters of the pointer-level caches: never more than max_size items;
+    dict contents (in order), hit / miss / soft-miss counters and on_miss calls equal the reference
+    cache's — the statement of the property, for the code with the real linked list -/
+theorem linked_list_contents_eq_ref (lru : Bool) (max : Nat) (hmax : 1 ≤ max) (om : Option (K → OmRes V))
+    (ops : List (WOp K V)) :
+    (hreach lru max om ops).map (fun h => (h.d, h.hit, h.miss, h.soft, h.omLog)) =
+      (refReach lru max om ops).map (fun s => (s.ents, s.hit, s.miss, s.soft, s.omLog)) ∧
+    (hwouts [HCache.initP lru max om] ops).map Out.shape = (Ref.wouts [Ref.initP lru max om] ops).map Out.shape ∧
+    ∀ h ∈ hreach lru max om ops, h.d.length ≤ max := by
+  have hw := linked_list_refines_ring lru max hmax om ops
+  have hr := refines_ref lru max hmax om ops
+  refine ⟨?_, hw.2.trans (results_eq_ref lru max hmax om ops), ?_⟩
+  · apply List.ext_getElem?
+    intro i
+    rw [List.getElem?_map, List.getElem?_map]
+    rcases hw.1.get i with ⟨h1, h2⟩ | ⟨a, c, h1, h2, hs⟩
+    · rcases hr.get i with ⟨g1, g2⟩ | ⟨c', s, g1, _, _⟩
+      · rw [h1, g2]; rfl
+      · rw [h2] at g1; cases g1
+    · rcases hr.get i with ⟨g1, _⟩ | ⟨c', s, g1, g2, hcs⟩
+      · rw [h2] at g1; cases g1
+      · rw [h2] at g1; cases g1
+        rw [h1, g2]
+        simp [hs.d, hs.hit, hs.miss, hs.soft, hs.log, hcs.d, hcs.hit, hcs.miss, hcs.soft, hcs.log]
+  · intro h hh
+    obtain ⟨c, hc, hs⟩ := linked_list_cache_of_mem lru max hmax om ops h hh
+    rw [hs.d]; exact size_le_max lru max hmax om ops c hc
+
+/-- the links of every reachable cache form a well-formed circular doubly linked list (`Rep`: NEXT /
+    PREV consistent, no link twice, the anchor holds `_MISSING`-free neighbours, `_link_lookup` maps
+    each key to its link), and walking it from the anchor as `copy()` does yields the items in
+    eviction order: first the key whose latest insertion / assignment / (LRU) lookup is oldest -/
+theorem linked_list_wellformed (lru : Bool) (max : Nat) (hmax : 1 ≤ max) (om : Option (K → OmRes V))
+    (ops : List (WOp K V)) (h : HCache K V) (hh : h ∈ hreach lru max om ops) :
+    ∃ c ∈ reach lru max om ops, ∃ cells, Rep h.ll cells ∧ ringOf cells = c.ring ∧ h.d = c.d ∧
+      h.ll.flatten = c.ring.map (fun p => (some p.1, some p.2)) := by
+  obtain ⟨c, hc, hs⟩ := linked_list_cache_of_mem lru max hmax om ops h hh
+  obtain ⟨cells, hrep, hring⟩ := hs.rep
+  exact ⟨c, hc, cells, hrep, hring, hs.d, by rw [hrep.flatten, hring]⟩
+
+/-- the four `_ll` helpers on a well-formed list `l` representing the ring `cells` (key ↦ (address of
+    its link, value), oldest first):
+    move-to-front splices the link out and back in before the anchor; add-to-front allocates one
+    link before the anchor; evict-last moves NO link — the old anchor becomes the newest link, the
+    oldest link becomes the anchor and its key is the one reported as evicted; remove splices out -/
+theorem ll_helpers_implement_ring_ops {l : LL K V} {cells : Cells K V} (h : Rep l cells) (k : K) (v : V) :
+    (∀ n v0, lookup k cells = some (n, v0) →
+      ∃ l', l.moveToFront k = some (l', n) ∧ Rep l' (eraseKey k cells ++ [(k, (n, v0))]) ∧
+            Rep { l' with val := upd l'.val n (some v) } (eraseKey k cells ++ [(k, (n, v))]) ∧
+      ∃ l'', l.remove k = some l'' ∧ Rep l'' (eraseKey k cells)) ∧
+    (lookup k cells = none →
+      l.moveToFront k = none ∧ l.remove k = none ∧ Rep (l.addFront k v) (cells ++ [(k, (l.fresh, v))]) ∧
+      ∀ e ae ve rest, cells = (e, (ae, ve)) :: rest →
+        ∃ l', l.evictLast k v = (l', some e) ∧ Rep l' (rest ++ [(k, (l.anchor, v))]) ∧
+              l'.anchor = ae ∧ l'.next = l.next ∧ l'.prev = l.prev) := by
+  refine ⟨fun n v0 hk => ?_, fun hk => ⟨h.moveToFront_none hk, h.remove_none hk, h.addFront v hk, ?_⟩⟩
+  · obtain ⟨xs, ys, hsplit, _, herase⟩ := lookup_split hk
+    subst hsplit
+    obtain ⟨l', hm, hr', _⟩ := h.moveToFront
+    obtain ⟨l'', hrm, hr''⟩ := h.remove
+    rw [herase]
+    exact ⟨l', hm, hr', hr'.setVal v, l'', hrm, hr''⟩
+  · intro e ae ve rest hc
+    subst hc
+    obtain ⟨l', he, hr'⟩ := h.evictLast v hk
+    refine ⟨l', he, hr', ?_⟩
+    have hnx : rd l.next l.anchor = ae := h.chain.1
+    have : l' = (l.evictLast k v).1 := by rw [he]
+    subst this
+    simp [LL.evictLast, hnx]
+
+/-- the hypothesis of `ll_helpers_implement_ring_ops` is satisfiable by a non-empty list: two links added to
+    a new list -/
+example : ∃ cells : Cells Nat Nat, Rep (((LL.new : LL Nat Nat).addFront 1 5).addFront 2 6) cells ∧
+    ringOf cells = [(1, 5), (2, 6)] :=
+  ⟨_, (Rep.new.addFront 5 rfl).addFront 6 (by decide), rfl⟩
+
+/-- `copy()` at pointer level: walking the source's links from its anchor and adding a fresh link per
+    item to a new list gives a well-formed list with the same items in the same (eviction) order; the
+    source's memory is not written -/
+theorem ll_copy_rebuilds_ring {l : LL K V} {cells : Cells K V} (h : Rep l cells) :
+    ∃ cells', Rep ((LL.new : LL K V).addAll l.flatten) cells' ∧ ringOf cells' = ringOf cells := by
+  have hn : (keys (ringOf ([] : Cells K V) ++ ringOf cells)).Nodup := by
+    simpa [ringOf, keys_mapVal] using h.nk
+  obtain ⟨c1, g1, g2⟩ := (Rep.new : Rep (LL.new : LL K V) []).addAll (ringOf cells) hn
+  exact ⟨c1, by rw [h.flatten]; exact g1, by simpa [ringOf] using g2⟩
+
 /-! ### non-vacuity: concrete histories with evictions (keys, values : Nat) -/
 
 /-- LRU, max_size 2: set 1, set 2, look 1 up, set 3 -> 2 (not 1) is evicted -/
@@ -469,6 +631,38 @@ example : (reach true 2 (some fun k : Nat => if k = 4 then OmRes.keyError else i
     [.on 0 (.getitem 4), .on 0 (.get 4 0), .on 0 (.get 5 0), .on 0 (.setdefault 4 3), .on 0 (.getitem 6)]).map
       (fun c => (c.d, c.hit, c.miss, c.soft, c.omLog))
     = [([(4, 3), (6, 13)], 0, 5, 2, [4, 4, 5, 4, 6])] := by decide
+
+/-- `b |= a` between two caches (an LRU and its copy): the source counts two hits and its eviction
+    order becomes its dict order (1 before 2), so the next insert evicts 1 -/
+example : (reach true 2 (none : Option (Nat → OmRes Nat))
+    [.on 0 (.setitem 1 5), .on 0 (.setitem 2 6), .on 0 (.getitem 1), .on 0 .copy, .on 1 .clear,
+     .updc 1 0 [], .on 0 (.setitem 3 7)]).map (fun c => (c.d, c.hit))
+    = [([(2, 6), (3, 7)], 3), ([(1, 5), (2, 6)], 0)] := by decide
+
+/-- a failing update keeps the prefix and obeys max_size; `== None` is False -/
+example : (reach false 2 (none : Option (Nat → OmRes Nat))
+    [.on 0 (.updateFail [(1, 5), (2, 6), (3, 7)]), .on 0 .eqOther]).map (fun c => (c.d, c.ring))
+    = [([(2, 6), (3, 7)], [(2, 6), (3, 7)])] := by decide
+
+/-- pointer level: LRU, max_size 2: set 1, set 2, look 1 up, set 3: the link of key 2 (address 2) has
+    become the anchor, the old anchor (address 0) holds key 3; walking from the anchor gives 1, 3 -/
+example : (hreach true 2 (none : Option (Nat → OmRes Nat))
+    [.on 0 (.setitem 1 5), .on 0 (.setitem 2 6), .on 0 (.getitem 1), .on 0 (.setitem 3 7)]).map
+      (fun h => (h.d, h.ll.flatten, h.ll.anchor))
+    = [([(1, 5), (3, 7)], [(some 1, some 5), (some 3, some 7)], 2)] := by decide
+
+example : (hreach true 2 (none : Option (Nat → OmRes Nat))
+    [.on 0 (.setitem 1 5), .on 0 (.setitem 2 6), .on 0 (.getitem 1), .on 0 (.setitem 3 7)]).map
+      (fun h => (h.ll.fresh, h.ll.table)) = [(3, [(1, 1), (3, 0)])] := by decide
+
+/-- pointer level: three evictions rotate the anchor once around a ring of three links (no pointer is
+    rewritten: NEXT = [1, 2, 0], PREV = [2, 0, 1]); copy() builds an equal list in its own memory -/
+example : (hreach false 2 (none : Option (Nat → OmRes Nat))
+    [.on 0 (.setitem 1 5), .on 0 (.setitem 2 6), .on 0 (.setitem 3 7), .on 0 (.setitem 4 8),
+     .on 0 (.setitem 5 9), .on 0 .copy]).map
+      (fun h => (h.ll.flatten, h.ll.anchor, h.ll.next, h.ll.prev))
+    = [([(some 4, some 8), (some 5, some 9)], 0, [1, 2, 0], [2, 0, 1]),
+       ([(some 4, some 8), (some 5, some 9)], 0, [1, 2, 0], [2, 0, 1])] := by decide
 
 /-- hypotheses of `full_insert_evicts_ring_head` are satisfiable: a full reachable cache -/
 example : let c := run (Cache.initP true 2 (none : Option (Nat → OmRes Nat))) [.setitem 1 5, .setitem 2 6, .getitem 1]
